@@ -131,6 +131,19 @@ def case_dump_one(case):
         data, feats = wo.make(rng, fmt, nbasis_max=20, contraction="generalized" if case["i"] % 2 else None,
                               spin="aminusb" if case["i"] % 2 == 0 else None, ghosts="none" if fmt == "molekel" else None)
         feats["klass"] = "needs-conversion"
+    elif fmt in ("xyz", "pdb", "mol2", "sdf") and case["i"] % 4 == 3:
+        # an object that comes from ANOTHER format (bond types, charges, labels the target does not know: MOL2's amide / dummy /
+        # not-connected bonds written to SDF, SDF's types 5-8 written to MOL2, ...)
+        src = {"sdf": "mol2", "mol2": "sdf", "xyz": "mol2", "pdb": "sdf"}[fmt]
+        data, feats = go.make(src, rng, klass)
+        feats["klass"] = f"{feats.get('klass')}-from-{src}"
+        if src == "mol2" and data.natom and data.natom >= 2 and (data.bonds is None or not len(data.bonds)):
+            data.bonds = np.array([[k, k + 1, t] for k, t in zip(range(data.natom - 1), [1, 2, 4, 1, 3])])
+        if src == "mol2" and data.bonds is not None and len(data.bonds):
+            # make sure the bond types only MOL2 knows (amide 9, dummy 10, not connected 11) occur
+            b = np.array(data.bonds)
+            b[:min(3, len(b)), 2] = [9, 10, 11][:min(3, len(b))]
+            data.bonds = b
     else:
         data, feats = go.make(fmt, rng, klass)
     # every key of `extra` that the writer of this format reads (found by reading the writers), with plausible values
